@@ -28,7 +28,8 @@ REQUIRED = ["contract:CVR.make_phantoms", "accounting_checked:style", "accountin
             "zero_shortfall_after_positive_shortfall", "bounds_unspecified", "worstcase_pairs", "phantom_mvr_strictly_lower",
             "phantom_cvr_pairs", "phantom_cvr_with_votes_pairs", "second_call_on_same_input_list", "shortfalls_all_different",
             "pool_means_with_phantoms_checked", "pool_means_with_phantoms_checked:assorter_bound_not_1",
-            "audit_wide_max_cards_differs_from_stratum_bound", "assorter:plurality", "assorter:supermajority", "assorter:irv"]
+            "audit_wide_max_cards_differs_from_stratum_bound", "phantom_mvrs_for_sampled_phantom_cards_checked",
+            "phantom_mvrs_for_sampled_phantom_cards_checked:another_prefix", "assorter:plurality", "assorter:supermajority", "assorter:irv"]
 ASSUMPTIONS = ["card bounds >= number of CVRs listing the contest; input lists contain no phantoms",
                "a phantom labelled pooled inside a pooled batch is scored with that batch's mean by design (C03 depends "
                "on it): the 1/2 clause is asserted for unpooled phantom CVRs"]
@@ -168,7 +169,7 @@ def run_case(es, rec):
             for con in sim.contests.values():
                 con.cards = con.cards + 2
         ok, again = rec.guard("c08.call:make_phantoms:second_call", CVR.make_phantoms, audit=sim.audit, contests=sim.contests,
-                              cvr_list=sim.real_list, prefix="phantom-1-", tally_pool=tp, pool=pool)
+                              cvr_list=sim.real_list, prefix=es.get("phantom_prefix", "phantom-1-"), tally_pool=tp, pool=pool)
         if not ok:
             return
         rec.count("second_call_on_same_input_list")
@@ -213,6 +214,28 @@ def run_case(es, rec):
                             rec.violation("c08.phantomcvr", f"{sc['kind']}:unpooled_phantom_cvr_not_scored_half",
                                           {"contest": cid, "assertion": name, "card": cv.id, "cvr_side_score": cvr_side})
                             return
+    # the sampled phantom cards get phantom manual records (which is how "cannot be found" enters the scoring above): the
+    # CVR-driven lookup must return one for exactly the sampled records whose phantom flag is set, whatever their prefix
+    import pandas as pd
+    from shangrla.formats.Dominion import Dominion
+    keys = sorted({tuple(cd["id"].split("-")[:2]) for cd in es["cards"]})
+    man = pd.DataFrame({"Tray #": [1] * len(keys), "Tabulator Number": [k[0] for k in keys], "Batch Number": [k[1] for k in keys],
+                        "Total Ballots": [sum(1 for cd in es["cards"] if tuple(cd["id"].split("-")[:2]) == k) for k in keys],
+                        "VBMCart.Cart number": [1] * len(keys)})
+    n_all = len(sim.cvr_list)
+    pick = [i for i in range(n_all) if sim.cvr_list[i].phantom or i % 3 == 0]
+    ok, res = rec.guard("c08.call:Dominion.sample_from_cvrs", Dominion.sample_from_cvrs, sim.cvr_list, man, np.array(pick))
+    if not ok:
+        return
+    want_ph = sorted(sim.cvr_list[i].id for i in pick if sim.cvr_list[i].phantom)
+    got_ph = sorted(m.id for m in res[3])
+    rec.count("phantom_mvrs_for_sampled_phantom_cards_checked")
+    if want_ph and es.get("phantom_prefix", "phantom-1-") != "phantom-1-":
+        rec.count("phantom_mvrs_for_sampled_phantom_cards_checked:another_prefix")
+    if got_ph != want_ph or any((not m.phantom) or m.votes for m in res[3]):
+        rec.violation("c08.worstcase", "sampled_phantom_cards_do_not_get_phantom_manual_records",
+                      {"got": got_ph[:6], "want": want_ph[:6], "prefix": es.get("phantom_prefix")})
+        return
     # pooled phantom CVRs enter the audit only through their batch's mean: each must contribute exactly 1/2 to the batch
     # total (reference: sum of reference assorter values of the batch's real CVRs + 1/2 per phantom)
     for cid, con in sim.contests.items():
